@@ -105,6 +105,9 @@ def check(rep, tier, seed):
         bad = None
         for c, a, b in disagreements[:2000]:
             t = c.split()
+            if a.startswith("CONTEXT-SINK-DIFFERS"):
+                bad = (c, a, b)
+                break
             if t[0] in "ui" and not a.startswith("PANIC"):
                 f = a.split()
                 ok = f[0] == f[1] and int(f[2]) == len(f[0]) // 2 and f[3] == f[5] == f[7] == f"Some({t[1]})"
